@@ -12,7 +12,7 @@ import json, os, re, shutil, subprocess, sys, glob
 ID, K = sys.argv[1], sys.argv[2]
 TIER = sys.argv[3] if len(sys.argv) > 3 else "quick"
 ROUND = "7"
-base = "/tmp/seed7/%s" % ID
+base = "/tmp/seed%s/%s" % (os.environ.get("X_ROUND", "7"), ID)
 out = "%s/out/%s" % (base, K)
 wt = base + "/wt"
 tgt = base + "/target"
@@ -102,7 +102,7 @@ else:
 for f in glob.glob("/tmp/evid.x7/*.json"):
     shutil.copy(f, "/verif/evidence/")
 res["caught_by"] = sorted(k for k, v in res["checks"].items() if isinstance(v, dict) and v.get("rc") == 1)
-dst = "/verif/seeded/X7-%s-%s" % (ID, K)
+dst = "/verif/seeded/X%s-%s-%s" % (os.environ.get("X_ROUND", "7"), ID, K)
 if os.path.exists(dst):
     shutil.rmtree(dst)
 os.makedirs(dst)
